@@ -147,6 +147,38 @@ def run(prog, rep, tier):
         else:
             r1.fail(fv.name, "nogr-peer-arm-missing:" + st_, "in state %s a peer established without GR families is not taken out of `pending` (the sibling state does it): "
                     "its empty entry keeps `pending` non-empty for ever, so EndDeferral is never emitted" % st_, fv.loc())
+    # (viii) a family is reported complete only after checking that no other peer still awaits it: every
+    # FamilyDeferralComplete is built by complete_for (which filters by `pending`) or under such a test
+    n_fc = 0
+    for k2 in crate_fns(prog, "rustybgpd"):
+        nm2 = prog.ix[k2]["name"]
+        if not nm2.startswith("rustybgpd::gr::RestartingDeferral::") or "::tests::" in nm2:
+            continue
+        if not any(a_.endswith("RestartingOutput::FamilyDeferralComplete") for a_ in prog.ix[k2].get("aggs", [])):
+            continue
+        v2 = view(prog, k2)
+        b2rs = branches(v2)
+        for bi, si, s_ in v2.aggregates(re.compile(r"rustybgpd::gr::RestartingOutput"), "FamilyDeferralComplete"):
+            n_fc += 1
+            root2 = root_name(prog, k2)
+            if root2.endswith("::complete_for"):
+                # inside complete_for: the closure chain filter(..).map(FamilyDeferralComplete)
+                toks2 = set()
+                for kk in prog.with_closures(prog.ix[k2].get("root") or k2):
+                    toks2 |= fn_tokens(prog, kk, depth=0)
+                if any(t.endswith("Iterator::filter") for t in toks2 if t.startswith("call:")) and any(t.endswith("HashSet::<T, S>::contains") or t.endswith("::contains") for t in toks2 if t.startswith("call:")):
+                    r1.ok("complete_for: candidates filtered by the remaining `pending` sets")
+                else:
+                    r1.fail(root2, "complete_for-no-filter", "complete_for reports families complete without filtering out those another peer still awaits", v2.loc(bi))
+                continue
+            tested = any(g[0] == "call" and g[1].endswith("Iterator::any") and "pending" in expr_vars(g) and l == {"false"} for g, l, h in flat_guards(v2, bi, b2rs))
+            if tested:
+                r1.ok("%s: FamilyDeferralComplete under `no peer still pending for the family`" % short(root2))
+            else:
+                r1.fail(root2, "family-complete-without-pending-check", "%s reports a family complete without checking that no other configured helper still awaits End-of-RIB for it: "
+                        "the family is released early (and a second time when that helper's End-of-RIB arrives)" % short(root2), v2.loc(bi))
+    if n_fc < 2:
+        r1.unanalysable("FamilyDeferralComplete constructions found: %d (want >= 2)" % n_fc)
     if not any((a.cond(r"input") == frozenset({"TimerExpired"})) for a in arms):
         r1.fail(fv.name, "no-timer-arm", "RestartingDeferral::process has no TimerExpired arm", fv.loc())
     if n_timer == 0:
@@ -238,6 +270,25 @@ def check_glue(prog, r):
             e = Renderer(cv, depth=10).operand(t["args"][1], 10)
             if e[0] == "agg":
                 feeds.setdefault(e[2], set()).add(root_name(prog, c))
+    # PeerWithdrawn is owed for *every* session end while a deferral is active (a helper that never reached Established,
+    # or ended without GR eligibility, must leave `pending` too): its construction depends on nothing but
+    # `selection_deferral` being Some
+    rk = prog.one(r"rustybgpd::event::PeerSession::run")
+    rv_ = view(prog, prog.body_key(rk))
+    rbrs = branches(rv_)
+    for bi, si, s_ in rv_.aggregates(re.compile(r"rustybgpd::gr::RestartingInput"), "PeerWithdrawn"):
+        extra = []
+        for g, l, h in flat_guards(rv_, bi, rbrs):
+            if g[0] == "discr" and (g[2] or "").endswith("task::poll::Poll"):
+                continue
+            if g[0] == "discr" and "selection_deferral" in expr_fields(g) and l == {"Some"}:
+                continue
+            extra.append(show(g, 60) + ":" + "|".join(sorted(l)))
+        if extra:
+            r.fail(prog.name(rk), "peer-withdrawn-conditional", "RestartingInput::PeerWithdrawn is fed only when %s: a helper whose session ends otherwise stays in `pending`, and the deferral never "
+                   "completes (with the timer not yet started, for ever)" % "; ".join(extra), rv_.loc(bi))
+        else:
+            r.ok("run(): PeerWithdrawn is fed for every session end while a deferral is active")
     want = {"TimerExpired": r".*gr_selection_deferral_timer_expired", "PeerWithdrawn": r".*PeerSession::run", "EorReceived": r".*process_effects", "PeerEstablished": r".*process_effects"}
     for inp, rx in want.items():
         srcs = feeds.get(inp, set())
